@@ -977,7 +977,14 @@ class CategoricalROISubsetState2D(SubsetState):
         labels2 = data[self.att2, view]
 
         # Initialize empty mask
-        mask = np.zeros(labels1.shape, dtype=bool)
+        mask = np.zeros(np.shape(labels1), dtype=bool)
+
+        # NOTE: the values can have any number of dimensions (n-dimensional
+        # datasets, views that select a single element or that are made of
+        # n-dimensional index arrays), so we loop over the flattened values.
+        labels1 = np.ravel(labels1)
+        labels2 = np.ravel(labels2)
+        flat_mask = mask.reshape(-1)
 
         # A loop over all values here is actually reasonably efficient compared
         # to alternatives. Any improved implementation, even vectorized, should
@@ -986,7 +993,7 @@ class CategoricalROISubsetState2D(SubsetState):
         for i in range(len(labels1)):
             if labels1[i] in self.categories:
                 if labels2[i] in self.categories[labels1[i]]:
-                    mask[i] = True
+                    flat_mask[i] = True
 
         return mask
 
@@ -1080,7 +1087,14 @@ class CategoricalMultiRangeSubsetState(SubsetState):
             values = values[view]
 
         # Initialize empty mask
-        mask = np.zeros(values.shape, dtype=bool)
+        mask = np.zeros(np.shape(values), dtype=bool)
+
+        # NOTE: the values can have any number of dimensions (n-dimensional
+        # datasets, views that select a single element or that are made of
+        # n-dimensional index arrays), so we loop over the flattened values.
+        labels = np.ravel(labels)
+        values = np.ravel(values)
+        flat_mask = mask.reshape(-1)
 
         # A loop over all values here is actually reasonably efficient compared
         # to alternatives. Any improved implementation, even vectorized, should
@@ -1091,7 +1105,7 @@ class CategoricalMultiRangeSubsetState(SubsetState):
             if labels[i] in self.ranges:
                 for lo, hi in self.ranges[labels[i]]:
                     if values[i] >= lo and values[i] <= hi:
-                        mask[i] = True
+                        flat_mask[i] = True
                         break
 
         return mask
